@@ -37,23 +37,45 @@ def Source.backend {α : Type} : Source α → Backend
   | .npy .. => .npy
   | .cbin .. => .cbin
 
+/-- The sample rates C01 quantifies over for flat / in-memory / npy readers: those the constructor accepts.
+`chunk_size = int(round(600.0 * sample_rate))` is computed with the FLOAT product (`C16.chunkSizeFl`), and
+`_get_chunk_bounds` asserts `chunk_size > 0` (traces.py:144): by `C16.chunkSizeFl_pos_iff` that is
+`1/2 + 2^-54 < 600·rate` for the exact value `rate` of the double (NOT `1/1200 < rate`: the double nearest to
+1/1200 is `7686143364045647/2^63 > 1/1200`, its float product is the tie 0.5, `round(0.5) = 0`, and the real
+constructor raises AssertionError — ran it; the next double above is accepted with chunk length 1).  The upper
+bound is the range on which `Fl.roundDouble` is the binary64 product (`Fl.InRange`): from `600·rate ≥ 2^1024 - 2^970`
+on (rates of about 3e305 Hz and more) the float product is `inf` and `round` raises OverflowError — ran it:
+`sample_rate=2.9e305` builds, `3e305` raises. -/
+def RateOK (rate : Rat) : Prop :=
+  1/2 + 1/18014398509481984 < 600 * rate ∧ 600 * rate < Fl.pow2 1024 - Fl.pow2 970
+
+instance (rate : Rat) : Decidable (RateOK rate) := by unfold RateOK; infer_instance
+
 /-- The layouts of C01.
 * flat: at least one file; positive item size and channel count; every file is exactly the header followed
-  by its rows (`offset + rows·nch·itemsize` bytes); the rate passes the constructor's `assert chunk_size > 0`
-  (`rate > 1/1200`, `Lemmas.chunkSize_pos_iff`; the real constructor raises `AssertionError` at and below it).
+  by its rows (`offset + rows·nch·itemsize` bytes); a rate the constructor accepts (`RateOK`; at and below
+  the lower bound the real constructor raises `AssertionError`, from the upper bound on `OverflowError`).
 * array: the same condition on the rate.
-* npy: exactly one path (the constructor raises `ValueError` for any other number).
+* npy: exactly one path (the constructor raises `ValueError` for any other number); the same condition on the rate.
 * cbin: exactly one compressed file (for several the constructor silently keeps the first — the open known
   finding of C01); the decoder contract: the last entry of the chunk table is the number of rows of the
-  decoded recording (mtscomp asserts it when writing); a non-zero rate (the `duration` property divides by it). -/
+  decoded recording (mtscomp asserts it when writing); a non-zero rate (the `duration` property divides by it;
+  no chunk length is computed from it: the table stored in the `.ch` file is taken as it is). -/
 def SrcOK {α : Type} : Source α → Prop
   | .flat files off isz nch _ rate =>
     files ≠ [] ∧ 0 < isz ∧ 0 < nch ∧ (∀ f ∈ files, f.fsize = off + f.rows.length * nch * isz) ∧
-      1/1200 < rate
-  | .array _ rate => 1/1200 < rate
-  | .npy paths rate => paths.length = 1 ∧ 1/1200 < rate
+      RateOK rate
+  | .array _ rate => RateOK rate
+  | .npy paths rate => paths.length = 1 ∧ RateOK rate
   | .cbin readers =>
     readers.length = 1 ∧ ∀ md ∈ readers, md.1.chunkBounds.getLast? = some md.2.length ∧ md.1.rate ≠ 0
+
+/-- the rate condition of `SrcOK`, decided (for the correspondence run: which generated rates are in the domain) -/
+def Source.rateOK {α : Type} : Source α → Bool
+  | .flat _ _ _ _ _ rate => decide (RateOK rate)
+  | .array _ rate => decide (RateOK rate)
+  | .npy _ rate => decide (RateOK rate)
+  | .cbin readers => readers.all fun md => decide (md.1.rate ≠ 0)
 
 /-- is the index expression a list/array of sample indices? -/
 def Item.isList : Item → Bool
@@ -61,10 +83,15 @@ def Item.isList : Item → Bool
   | _ => false
 
 /-! concrete recordings used by the non-vacuity examples of `Props/C01.lean` -/
-/-- two flat files (header 5 bytes, int16, 2 channels, 2 + 1 rows) at 1/400 Hz; one compressed file -/
+/-- two flat files (header 5 bytes, int16, 2 channels, 2 + 1 rows) at 1/400 Hz; one compressed file; an in-memory
+array of 3 rows at a given rate; the double nearest to 1/1200 and the next double above it -/
 def exFlat : Source (List Nat) :=
   .flat [⟨13, [[1, 2], [3, 4]]⟩, ⟨9, [[5, 6]]⟩] 5 2 2 "int16" (1/400)
 def exCbin : Source (List Nat) :=
   .cbin [(⟨2, "int16", 10, [0, 2, 3]⟩, [[1, 2], [3, 4], [5, 6]])]
+
+def exArr (rate : Rat) : Source (List Nat) := .array ⟨[[1, 2], [3, 4], [5, 6]], 2, "int16"⟩ rate
+def rate1200 : Rat := 7686143364045647 / 9223372036854775808
+def rate1200up : Rat := 7686143364045648 / 9223372036854775808
 
 end PhyVerif.C01
